@@ -205,6 +205,11 @@ class Calls(DataModels):
         from .interp import SuperProxy
         if isinstance(obj, SuperProxy):
             return self.call_obj_method(I, obj.obj, name, args, kw, node, after=obj.clsname)
+        from .vals import SOpt
+        if isinstance(obj, SOpt):
+            if not I.pure and I.ctx.branch(obj.isnone):
+                raise PyExc('AttributeError', ln, 'None.%s' % name)
+            return self.call_method(I, obj.val, name, args, kw, node, fr)
         if obj is None:
             raise PyExc('AttributeError', ln, 'None.%s' % name)
         if isinstance(obj, SStream):
@@ -494,7 +499,13 @@ class Calls(DataModels):
             b = I.ctx.const('mayraise!%s' % cls, BoolS)
             if I.ctx.branch(b):
                 raise PyExc(cls, ln, 'from %s (may)' % c.qualname)
-        # effects
+        # effects: a callee may leave every stream it can reach at any position (its postconditions may
+        # say more, e.g. that the position is preserved); this is what makes every proved postcondition
+        # independent of where earlier queries left the shared streams (C10)
+        if not I.pure:
+            for st in self.reachable_streams(fr):
+                st.pos = I.ctx.const(st.name + '.pos!c', IntS)
+                I.ctx.assume(st.pos >= 0)
         for path in c.modifies:
             if path == '*rep':
                 self.havoc_reps(I, fr)
